@@ -245,7 +245,7 @@ function like_to_regex(pattern) {
 function like(text, pattern) {
     let matcher = query_context.like_regex_cache.get(pattern);
     if (matcher === undefined) {
-        matcher = new RegExp(like_to_regex(pattern));
+        matcher = new RegExp(like_to_regex(pattern), 'u'); // unicode mode: `_` has to match one character, not one UTF-16 code unit
         query_context.like_regex_cache.set(pattern, matcher);
     }
     return matcher.test(text);
